@@ -185,6 +185,12 @@ def gen_params(ctx, nmax=8, allow_obj_struct=True, force=None):
     return params
 
 
+# documentation blocks: plain, text left of the asterisk column starting with a multi-byte character,
+# a line ending in a backslash, tabs, a second block-comment opener
+DOCS = ["/**\n   * doc %d\n   */", "/**\n   * doc %d\n   */", "/**\n  µm  Mikrometer %d\n   */",
+        "/**\n   * below C:\\logs\\ %d \\\n   */", "/**\n\t* tab %d\n\t*/", "/**\n * %d /* opener // slashes\n * second line é\n */"]
+
+
 def gen_iface(ctx, name, base=None, nmembers=None, allow_obj_struct=True):
     rng = ctx.rng
     members = []
@@ -199,7 +205,7 @@ def gen_iface(ctx, name, base=None, nmembers=None, allow_obj_struct=True):
         else:
             doc = None
             if rng.random() < 0.2:
-                doc = "/**\n   * doc %d\n   */" % k
+                doc = rng.choice(DOCS) % k
             members.append(("method", ctx.fresh("m"), gen_params(ctx, allow_obj_struct=allow_obj_struct),
                             rng.random() < 0.15, doc))
     ctx.ifaces[name] = {"base": base, "file": ctx.cur}
